@@ -145,11 +145,12 @@ check("C10",
 check("C11",
       "MC_Engine with faults of every class at every point of every interleaving shows the protocol leaves no in-flight "
       "marker and stays reusable. On the real code: for each TLC-generated schedule the clean run counts the K user "
-      "callback invocations (Hamiltonian eval, custom solve_sylvester); a fault is injected at EVERY invocation 1..K "
+      "callback invocations (Hamiltonian eval, custom solve_sylvester, and - for Hamiltonians given as a pre-blocked lazy "
+      "series of opaque algebra elements - the product of two elements); a fault is injected at EVERY invocation 1..K "
       "for each of Exception/RuntimeError/KeyboardInterrupt, plus sampled double faults; the schedule continues and "
       "everything is re-read; TLC validates each event stream against Engine.tla (Fault/Unwind/Raise actions, logged "
       "count of in-flight markers in the real caches = 0, exception class preserved, later values = undisturbed run).",
-      ENG + " The element-multiplication callback is not injected (numpy matmul).",
+      ENG,
       "TLA+ engine model with Fault/Unwind (TLC exhaustive) + exhaustive crash-point injection + trace validation",
       "DESIGN.md §4 C11")
 check("C12",
